@@ -15,6 +15,15 @@ Three monitors run on every render of the real engine:
     (outcome(NAME) == outcome(zq_nonexistent_zq) after masking the two names).  This is what
     decides engine-owned objects (forloop, tablerowloop, block, now/today, str/int/list/dict
     values), which cannot carry a spy hook.
+(d) call monitor: data whose ITEMS (values of dicts / Mapping drops / lists, or top-level render
+    arguments) are callables -- bound method of a spy, function, lambda, functools.partial, class,
+    coroutine function, bound builtin, callable object, static/class method.  Every callable
+    records being called; any call made by engine code is a violation
+    ``callable-item-called:<kind>@<innermost liquid2 frame>``; what a call would return carries
+    ``callresult`` canaries (monitor b) and its keys are hidden names for the relation (c).  Sites
+    continue the path THROUGH the callable (.NAME, [NAME], .size/.first/.last, conditions, for,
+    filters, partials, macros, translate) and also print / compare the callable itself; every
+    (kind, site) runs in sync AND async mode in both tiers.
 """
 
 from __future__ import annotations
@@ -61,6 +70,10 @@ ASSUMPTIONS = [
     "spies define __str__ (string conversion is protocol) and keep the default __repr__, whose "
     "text contains the class-name canary; plain dicts containing spies are never stringified by "
     "the workload (str(dict) calls repr on values, which is Python's own string conversion)",
+    "for the callable-item shapes the repr of an exposed callable (which names its class) and the "
+    "callable object itself reaching filters are NOT reported: the host exposed that value; only "
+    "calls, call-result canaries and the hidden-name relation decide there. The call of a bound "
+    "builtin (dict.copy) cannot be recorded, only its result canary can be seen",
     "environment: liquid2.shopify.Environment (superset: tablerow + base64 filters) with "
     "DictLoader, default Undefined, auto_escape on and off",
 ]
@@ -294,6 +307,9 @@ class Runner:
         from liquid2.shopify import Environment
         from markupsafe import Markup
 
+        import warnings
+
+        warnings.simplefilter("ignore", RuntimeWarning)  # un-awaited lazy_coro() under a broken engine
         O.MON.configure(REPO_DIR)
         self.ctx = ctx
         self.LiquidError = LiquidError
@@ -325,6 +341,9 @@ class Runner:
         got = self._names_cache.get(shape)
         if got is not None:
             return got
+        if shape in SITES.CARRIER_SHAPES:
+            self._names_cache[shape] = list(O.CALL_RESULT_KEYS)
+            return self._names_cache[shape]
         pool = set(HOT_NAMES)
         try:
             sample = None
@@ -378,7 +397,7 @@ class Runner:
         if shape in O.CLASSES:
             data["obj"] = O.make(shape, 0)
             data["objs"] = [O.make(shape, i) for i in (1, 2, 3)]
-        elif shape not in WRAP:
+        elif shape not in WRAP and shape not in SITES.CARRIER_SHAPES:
             data["obj"] = self.builtin_value(shape, 0)
             data["objs"] = [self.builtin_value(shape, i) for i in (1, 2, 3)]
         box = O.make("mapping", 5)
@@ -388,15 +407,35 @@ class Runner:
         return data
 
     # -- one render -----------------------------------------------------------------
+    def carrier_path(self, shape: str, kind: str, variant: int) -> str:
+        if shape == "call_top":
+            return "obj"
+        if shape == "call_list":
+            return f"obj[{O.CALLABLE_KINDS.index(kind)}]"
+        return f"obj['{kind}']" if variant else f"obj.{kind}"
+
     def execute(self, shape: str, site: dict[str, Any], name: str, name2: str, mode: str,
-                ae: bool, verbose: bool = False) -> dict[str, Any]:
+                ae: bool, verbose: bool = False, kind: str = "", variant: int = 0) -> dict[str, Any]:
         src = site["src"]
+        if shape in SITES.CARRIER_SHAPES:
+            src = src.replace("@P@", self.carrier_path(shape, kind, variant))
         if shape in WRAP and site["only"] is None:
             pre, post = WRAP[shape]
             src = pre + src + post
         src = src.replace("@N@", name).replace("@M@", name2)
         tpls = {k: v.replace("@N@", name).replace("@M@", name2) for k, v in SITES.PARTIALS.items()}
         data = self.build_data(shape, name, name2)
+        if shape in SITES.CARRIER_SHAPES:
+            cs = O.make_callables()
+            data["objs"] = [cs[k_] for k_ in O.CALLABLE_KINDS]
+            if shape == "call_dict":
+                data["obj"] = {**cs, "title": "PUB_CALLDICT"}
+            elif shape == "call_drop":
+                data["obj"] = O.make("calldrop", 0, items=cs)
+            elif shape == "call_list":
+                data["obj"] = list(data["objs"])
+            else:
+                data["obj"] = cs[kind]
         env = self.envs[ae]
         env.loader = self.DictLoader(tpls)
         mon = O.MON
@@ -436,6 +475,12 @@ class Runner:
         res["events"] = mon.events
         res["touched"] = set(mon.touched)
         res["bad"] = list(mon.bad) + list(self.scan.found)
+        if shape in SITES.CARRIER_SHAPES:
+            # the host exposed the callables themselves: handing them to filters and printing
+            # their repr (which names their class) is not the subject; calling them is
+            res["bad"] = [b for b in res["bad"]
+                          if b["kind"] not in ("pyobject", "pyrepr")
+                          and not (b["kind"] == "canary" and b["holder"] in ("classname", "modulename"))]
         if verbose:
             res["trace"] = mon.trace
             res["calls"] = self.scan.call_log
@@ -445,22 +490,26 @@ class Runner:
 
     # -- a case = control + names ------------------------------------------------------
     def run_site(self, shape: str, site: dict[str, Any], names: list[str], mode: str, ae: bool,
-                 rng: random.Random) -> None:
+                 rng: random.Random, kind: str = "", variant: int = 0) -> None:
         ctx = self.ctx
+        kv = {"kind": kind, "variant": variant}
         is_spy = shape in O.CLASSES
         vis = set(O.VISIBLE.get(shape, ())) | ENGINE_VISIBLE.get(shape, set()) | {"first", "last", "size"}
         vis |= site_visible(site)
         digits = shape in ("now", "today") or site["id"].startswith(("eng.now", "eng.babel")) or ".date." in site["id"] or ".datetime." in site["id"]
-        ctrl = self.execute(shape, site, CTRL, CTRL2, mode, ae)
-        self._account(shape, site, CTRL, CTRL2, mode, ae, ctrl, is_spy)
+        ctrl = self.execute(shape, site, CTRL, CTRL2, mode, ae, **kv)
+        self._account(shape, site, CTRL, CTRL2, mode, ae, ctrl, is_spy, kv)
         if not ctrl.get("parsed"):
             ctx.count("sites_not_parsed")
             ctx.seen("unparsed_sites", site["id"])
             return
         for name in names:
             name2 = rng.choice(SECOND_NAMES)
-            res = self.execute(shape, site, name, name2, mode, ae)
-            self._account(shape, site, name, name2, mode, ae, res, is_spy)
+            res = self.execute(shape, site, name, name2, mode, ae, **kv)
+            self._account(shape, site, name, name2, mode, ae, res, is_spy, kv)
+            if kind:
+                ctx.count("callable_path_renders")
+                ctx.seen("callable_kind_site_mode", f"{shape}|{kind}|{site['id']}|{mode}")
             if "must-be-empty" in site["tags"] and res.get("ok") and res["out"].replace("|", "") != "":
                 self._violation("engine-attr:now", "an attribute of the built-in datetime object was rendered",
                                 shape, site, name, name2, mode, ae, res, None)
@@ -474,12 +523,12 @@ class Runner:
                 self._violation(
                     f"relation:{shape}:{fam}",
                     "a name the object does not expose behaves differently from a name that exists nowhere",
-                    shape, site, name, name2, mode, ae, res, ctrl)
+                    shape, site, name, name2, mode, ae, res, ctrl, kv=kv)
             elif not is_spy and res.get("parsed"):
-                ctx.nt(shape, site["id"], name, mode, ae)
+                ctx.nt(shape, site["id"], name, mode, ae, kind, variant)
 
     def _account(self, shape: str, site: dict[str, Any], name: str, name2: str, mode: str, ae: bool,
-                 res: dict[str, Any], is_spy: bool) -> None:
+                 res: dict[str, Any], is_spy: bool, kv: dict[str, Any] | None = None) -> None:
         ctx = self.ctx
         ctx.ev()
         ctx.count("attr_log_events", res["events"])
@@ -507,6 +556,9 @@ class Runner:
                 elif "takeover" in site["tags"]:
                     key = f"{key.split('@')[0]}@translations-variable-rebound"
                 what = f"{b['level']} attribute '{b['name']}' of a {b['shape']} object read by {b['caller']}: {b['why']}"
+            elif b["kind"] == "called":
+                key = b["key"]
+                what = f"engine code ({b['caller']}) CALLED a callable item ({b['callable']}) that the data only exposed as a value"
             elif b["kind"] == "canary":
                 key = f"canary:{b['holder']}->{b['sink'].split(':')[0]}@{_site_family(site['id'])}"
                 what = f"canary {b['token']} (held only in a Python {b['holder']}) reached {b['sink']}"
@@ -516,16 +568,19 @@ class Runner:
             else:
                 key = f"pyrepr:{b['pattern']}->{b['sink'].split(':')[0]}@{_site_family(site['id'])}"
                 what = f"repr of a Python-internal object reached {b['sink']}: {b['text']!r}"
-            self._violation(key, what, shape, site, name, name2, mode, ae, res, None, detail=b)
+            self._violation(key, what, shape, site, name, name2, mode, ae, res, None, detail=b, kv=kv)
 
     def _violation(self, key: str, what: str, shape: str, site: dict[str, Any], name: str,
                    name2: str, mode: str, ae: bool, res: dict[str, Any], ctrl: dict[str, Any] | None,
-                   detail: dict[str, Any] | None = None) -> None:
+                   detail: dict[str, Any] | None = None, kv: dict[str, Any] | None = None) -> None:
         wit: dict[str, Any] = {
             "shape": shape, "site": site["id"], "name": name, "name2": name2, "mode": mode,
             "auto_escape": ae, "source": res["source"],
             "outcome": res.get("out") if res.get("ok") else f"{res.get('err')}: {res.get('msg', '')}",
         }
+        if kv and kv.get("kind"):
+            wit["kind"] = kv["kind"]
+            wit["variant"] = kv["variant"]
         if ctrl is not None:
             wit["control_outcome"] = ctrl.get("out") if ctrl.get("ok") else f"{ctrl.get('err')}: {ctrl.get('msg', '')}"
         if detail is not None:
@@ -556,12 +611,17 @@ def floors(tier: str) -> dict[str, int]:
         "filter_calls": 30_000 * k,
         "set:filters_called": 70,
         "renders_with_public_flow": 4_000 * k,
+        "callable_path_renders": 4_000 * k,
+        "set:callable_kind_site_mode": 2_000,
+        "callable_items_served_by_drop": 1_000 * k,
     }
 
 
 def applicable(shape: str, site: dict[str, Any]) -> bool:
     if site["only"] is not None:
         return shape in site["only"]
+    if shape in SITES.CARRIER_SHAPES:
+        return False
     if shape == "block" and ("extends" in site["src"]):
         return False
     return True
@@ -571,12 +631,25 @@ def run_shard(spec: dict[str, Any], ctx: Ctx) -> None:
     r = Runner(ctx)
     tier = spec["tier"]
     rng = random.Random(f"{spec['seed']}:sweep:{spec['i']}")
-    shapes = O.SPY_SHAPES + ENGINE_SHAPES
+    shapes = O.SPY_SHAPES + ENGINE_SHAPES + list(SITES.CARRIER_SHAPES)
     pairs = [(sh, st) for sh in shapes for st in r.sites if applicable(sh, st)]
     quick = tier == "quick"
     last = None
     for pi, (shape, site) in enumerate(pairs):
         if pi % spec["n"] != spec["i"]:
+            continue
+        if shape in SITES.CARRIER_SHAPES:
+            # every callable kind, BOTH render modes (a lazily-resolving path is as likely to be
+            # added to one of the hand-duplicated sync/async twins as to both)
+            nm = list(O.CALL_RESULT_KEYS) if not quick else ["token", rng.choice(O.CALL_RESULT_KEYS[1:])]
+            for kind in O.CALLABLE_KINDS:
+                for mode in ("sync", "async"):
+                    variants = (0, 1) if (not quick and shape in ("call_dict", "call_drop")) else (rng.randrange(2),)
+                    for variant in variants:
+                        aes = (False, True) if not quick else (rng.random() < 0.3,)
+                        for ae in aes:
+                            r.run_site(shape, site, nm, mode, ae, rng, kind=kind, variant=variant)
+            last = (shape, site["id"], nm)
             continue
         is_spy = shape in O.CLASSES
         generic = site["id"].startswith("filter.") and ".kw" not in site["id"]
@@ -612,6 +685,7 @@ def run_shard(spec: dict[str, Any], ctx: Ctx) -> None:
     ctx.count("filter_calls", r.scan.calls)
     for f in r.scan.filters_called:
         ctx.seen("filters_called", f)
+    ctx.count("callable_items_served_by_drop", O.MON.callables_served)
     for a in O.MON.allowed_seen:
         ctx.seen("allowed_reads", a)
     for t in r.scan.skip_types:
@@ -631,8 +705,9 @@ def replay(wit: dict[str, Any], ctx: Ctx) -> None:
     mode, ae = wit.get("mode", "sync"), bool(wit.get("auto_escape"))
     is_spy = shape in O.CLASSES
     print(f"replay C05: shape={shape} site={site['id']} name={name} name2={name2} mode={mode} auto_escape={ae}")
-    ctrl = r.execute(shape, site, CTRL, CTRL2, mode, ae, verbose=True)
-    res = r.execute(shape, site, name, name2, mode, ae, verbose=True)
+    kv = {"kind": wit.get("kind", ""), "variant": int(wit.get("variant", 0) or 0)}
+    ctrl = r.execute(shape, site, CTRL, CTRL2, mode, ae, verbose=True, **kv)
+    res = r.execute(shape, site, name, name2, mode, ae, verbose=True, **kv)
     print("source :", res["source"])
     print("outcome:", res.get("out") if res.get("ok") else (res.get("err"), res.get("msg")))
     print("control:", ctrl.get("out") if ctrl.get("ok") else (ctrl.get("err"), ctrl.get("msg")))
@@ -646,7 +721,7 @@ def replay(wit: dict[str, Any], ctx: Ctx) -> None:
     for c in res["calls"] or []:
         print("   ", c)
     print("findings:", res["bad"])
-    r._account(shape, site, name, name2, mode, ae, res, is_spy)
+    r._account(shape, site, name, name2, mode, ae, res, is_spy, kv)
     vis = set(O.VISIBLE.get(shape, ())) | ENGINE_VISIBLE.get(shape, set()) | {"first", "last", "size"}
     vis |= site_visible(site)
     if "must-be-empty" in site["tags"] and res.get("ok") and res["out"].replace("|", "") != "":
@@ -660,4 +735,4 @@ def replay(wit: dict[str, Any], ctx: Ctx) -> None:
         if a != b:
             r._violation(f"relation:{shape}:{site['id'].split('.')[0]}",
                          "a name the object does not expose behaves differently from a name that exists nowhere",
-                         shape, site, name, name2, mode, ae, res, ctrl)
+                         shape, site, name, name2, mode, ae, res, ctrl, kv=kv)
